@@ -172,7 +172,8 @@ func (f *Frame) instr(ins ssa.Instruction, st *State) bool {
 	case *ssa.RunDefers:
 		f.runDefers(st)
 	case *ssa.Go:
-		un.note("go statement in " + f.fn.Name() + ": spawned function is not modelled in the spawner (A-SEQ)")
+		un.note("go statement in " + f.fn.Name() + ": the spawned function runs concurrently and is not executed in the spawner (A-SEQ); its preconditions are checked at the go statement")
+		f.goCall(x, st)
 	case *ssa.Send:
 		f.chanSend(x, st)
 	case *ssa.Select:
